@@ -10,7 +10,10 @@ RULE = ("streams of 1..12 generated valid messages (both byte orders, sizes 16 B
         "partitions (1-byte dribble, all 1-cut and 2-cut partitions of short streams, random k-cuts, cuts forced "
         "into fixed header / field array / padding / body); second mode: the same through a real in-process "
         "DBusServer connection where the stream starts with the SASL handshake so that message bytes share a read "
-        "with BEGIN. Oracle: unsplit run + independent framing (vf/wire.py). distinct = (mode, #messages, terminal "
+        "with BEGIN; third mode: a raw client writes valid descriptor-carrying messages (lengths not multiples of 8) "
+        "to the real daemon in chosen partitions (daemon SIGSTOPped around each write so its reads see exactly the "
+        "chunks): every message must arrive, in order, with its descriptors. Oracle: unsplit run + independent "
+        "framing (vf/wire.py). distinct = (mode, #messages, terminal "
         "state, partition kind, byte order mix)")
 
 AUTH = b"\0AUTH EXTERNAL 30\r\nBEGIN\r\n"
@@ -318,18 +321,139 @@ def run(tier, seed, replay=None, scale=1.0):
             return r.finish()
         nl = int((3000 if tier == "quick" else 60000) * scale)
         nh = int((320 if tier == "quick" else 6000) * scale)
+        nd = int((480 if tier == "quick" else 8000) * scale)
         shards = [("L", (seed, i, max(1, nl // 16), exe, i % 4 == 0)) for i in range(16)] + \
-                 [("H", (seed, i, max(1, nh // 16), hexe, rundir)) for i in range(16)]
+                 [("H", (seed, i, max(1, nh // 16), hexe, rundir)) for i in range(16)] + \
+                 [("D", (seed, i, max(1, nd // 16))) for i in range(16)]
         for part in report.run_sharded(_dispatch, shards):
             r.merge(part)
     finally:
         shutil.rmtree(rundir, ignore_errors=True)
     r.require("partitions-compared", 100 if scale >= 1 else 1)
     r.require("hs-partitions-compared", 50 if scale >= 1 else 1)
+    r.require("daemon-fd-streams", 50 if scale >= 1 else 1)
     r.assumptions = ["read boundaries equal chunk boundaries because the server loop runs to idle after every write (handshake mode)",
                      "oracle framing = vf/wire.py"]
     return r.finish()
 
 
+def _worker_daemon_fd(args):
+    """Daemon-level mode with descriptor passing: a raw client writes a stream of valid unicast signals, some of
+    which carry descriptors and whose lengths are not multiples of 8, in a chosen partition; the daemon is
+    SIGSTOPped around each write so that what it finds in the socket at each read is exactly the chunk (plus
+    everything after it for the last chunk).  Whatever the partition, the recipient must get every message, in
+    order, with the announced number of descriptors, and the sender must stay connected."""
+    import os
+    import shutil
+    import signal
+    import tempfile
+    import time
+    from vf import busproc, client
+    seed, shard, nstreams = args
+    part = report.Part()
+    b = build.build("asan", quiet=True)
+    rng = gen.rng_for(seed, PROP, "dfd", shard)
+    rundir = tempfile.mkdtemp(prefix="verif-c11d-")
+    try:
+        d = busproc.Daemon(b, rundir, busproc.make_config("@SOCK@"), name="bus")
+        clock = client.Clock()
+        rcv = client.connect(d.sock, clock, negotiate_fd=True)
+        other = client.connect(d.sock, clock)
+        for si in range(nstreams):
+            snd = client.connect(d.sock, clock, negotiate_fd=True)
+            nmsg = rng.randint(2, 5)
+            msgs = []
+            tmpf = tempfile.TemporaryFile()
+            for mi in range(nmsg):
+                nf = rng.choice([0, 1, 1, 2])
+                pad = rng.randint(0, 9)
+                serial, data = snd.build(4, path=b"/s", iface=b"com.example.S", member=b"M%d" % mi, dest=rcv.unique,
+                                         sig=b"s", body=[b"x" * pad], unix_fds=nf if nf else None,
+                                         order=rng.choice("lB"))
+                msgs.append((serial, data, nf))
+            stream = b"".join(m[1] for m in msgs)
+            n = len(stream)
+            # cut inside the first message (fixed header / fields / padding / body), the rest in one write
+            first_len = len(msgs[0][1])
+            kind = rng.choice(["none", "head", "head", "two", "dribble-first"])
+            if kind == "none":
+                cuts = []
+            elif kind == "head":
+                cuts = [rng.randint(1, first_len - 1)]
+            elif kind == "two":
+                a = rng.randint(1, first_len - 1)
+                cuts = sorted(set([a, rng.randint(a, n - 1)]))
+            else:
+                cuts = list(range(1, min(first_len, 24)))
+            chunks = _cuts_to_chunks(cuts, n) if cuts else [n]
+            # descriptors go with the first byte of the message that announces them
+            offs = []
+            o = 0
+            for serial, data, nf in msgs:
+                offs.append((o, nf))
+                o += len(data)
+            pos = 0
+            wit = {"mode": "daemon-fd", "chunks": chunks, "lens": [len(m[1]) for m in msgs], "fds": [m[2] for m in msgs]}
+            try:
+                for ci, c in enumerate(chunks):
+                    os.kill(d.pid, signal.SIGSTOP)
+                    piece_end = pos + c
+                    # split this chunk at message starts that carry descriptors (sendmsg attaches to first byte)
+                    p = pos
+                    while p < piece_end:
+                        nxt = min([x for x, nf in offs if x > p and x < piece_end and nf] + [piece_end])
+                        fds = []
+                        for x, nf in offs:
+                            if x == p and nf:
+                                fds = [tmpf.fileno()] * nf
+                        snd.send_bytes(stream[p:nxt], fds)
+                        p = nxt
+                    pos = piece_end
+                    os.kill(d.pid, signal.SIGCONT)
+                    # let the bus read what is there (two round-trips of an unrelated client)
+                    other.barrier()
+                    other.barrier()
+            except (client.Closed, OSError):
+                os.kill(d.pid, signal.SIGCONT)
+            got = []
+            ok = True
+            try:
+                snd.barrier()
+            except (client.Closed, client.Timeout):
+                ok = False
+            rcv.barrier()
+            for rec in rcv.take_inbox():
+                if rec.msg.type == 4 and rec.msg.known().get(2) == b"com.example.S":
+                    got.append((rec.msg.known().get(3), len(rec.fds)))
+                for fd in rec.fds:
+                    os.close(fd)
+            want = [(b"M%d" % i, m[2]) for i, m in enumerate(msgs)]
+            part.evaluations += 1
+            part.count("daemon-fd-streams")
+            part.sig("daemon-fd", kind, nmsg, tuple(m[2] for m in msgs)[:3], first_len % 8)
+            if not ok:
+                part.violation("%s:daemon-fd:sender-disconnected:%s" % (PROP, kind), "the sender of a valid descriptor-carrying stream was disconnected under this partition", wit)
+            elif got != want:
+                part.violation("%s:daemon-fd:messages-differ:%s" % (PROP, kind), "recipient got %r, stream was %r" % (got, want), wit)
+            snd.close()
+            tmpf.close()
+            if not d.alive():
+                break
+        rcv.close()
+        other.close()
+        d.stop()
+        for cls, site, text in d.problems():
+            part.violation("%s:%s:%s" % (PROP, cls, site), "daemon reported %s" % cls, {"stderr": text[-2000:]})
+    finally:
+        try:
+            os.kill(d.pid, signal.SIGCONT)
+        except Exception:
+            pass
+        shutil.rmtree(rundir, ignore_errors=True)
+    return part
+
+
 def _dispatch(s):
+    if s[0] == "D":
+        return _worker_daemon_fd(s[1])
     return _worker_loader(s[1]) if s[0] == "L" else _worker_hs(s[1])
